@@ -29,6 +29,29 @@ def updateNext (s : PC) (now rnd : Rat) : PC :=
   else
     { s with next := s.next + periodSec s rnd }
 
+/-! ### the constructor: how the `callback_time` argument becomes `self.callback_time` (milliseconds) -/
+
+/-- the `callback_time` argument -/
+inductive Period
+  | ms (q : Rat)     -- a number: milliseconds
+  | td (us : Int)    -- a `datetime.timedelta`: a whole number of microseconds (its resolution)
+  deriving Repr, DecidableEq
+
+/-- the period the caller asked for, in milliseconds (exact) -/
+def Period.requestedMs : Period → Rat
+  | .ms q => q
+  | .td us => (us : Rat) / 1000
+
+/-- `PeriodicCallback.__init__`: the value stored in `self.callback_time`; `none` = `ValueError`.
+A timedelta is converted by **true** division `callback_time / timedelta(milliseconds=1)` (the exact ratio of the two
+microsecond counts) and is not validated; a number must be positive. -/
+def ctor : Period → Option Rat
+  | .ms q => if q ≤ 0 then none else some q
+  | .td us => some ((us : Rat) / 1000)
+
+/-- the freshly constructed and started object: `_next_timeout = now` -/
+def newPC (p : Period) (jitter now : Rat) : Option PC := (ctor p).map fun ct => ⟨ct, jitter, now⟩
+
 /-! ### the run/schedule machine -/
 
 /-- what the user callback does when invoked -/
